@@ -11,6 +11,11 @@ GARBAGE_VALUES = ['', ' ', ',', ';', '=', ';;', '==', '\x00', '\xff', '\xff\xff'
                   'max-age=', 'max-age=99999999999999999999', 'text/', 'text/html;', 'text/html;q=', 'text/html;q=1e999', 'text/html;q=nan', 'text/html;q=0x1p3', 'a=b;', 'a=b; Max-Age=', 'a=b; Max-Age=99999999999',
                   'a=b; Expires=', 'a=b; Expires=Mon, 99 Foo 0000', '[', ']', '[::1', '::1]', 'h:', 'h:99999', 'h:-1', 'Basic', 'Basic ', 'Basic !!!!', 'Basic QQ', 'chunked', 'gzip, chunked', '100-continue',
                   'Mon, 01 Jan 2001 00:00:00 GMT', 'Monday, 01-Jan-01 00:00:00 GMT', 'Mon Jan  1 00:00:00 2001', '01 Jan 2001', 'garbage date']
+# numbers at the edges of every integer width, in every numeric context of the header/cookie grammars (overflow checks that are off by one digit)
+BOUNDARY_NUMBERS = ['32767', '32768', '65535', '65536', '2147483646', '2147483647', '2147483648', '2147483649', '2147483650', '4294967295', '4294967296', '4294967297',
+                    '9223372036854775807', '9223372036854775808', '9223372036854775809', '18446744073709551615', '18446744073709551616', '18446744073709551619',
+                    '02147483648', '21474836470', '-2147483648', '-2147483649']
+GARBAGE_VALUES += [pre + n for pre in ('', 'max-age=', 'a=b; Max-Age=', 'h:', 'text/html;q=', 'text/html;q=0.') for n in BOUNDARY_NUMBERS]
 HDRS = ['Accept', 'Cache-Control', 'Connection', 'Content-Encoding', 'Transfer-Encoding', 'Content-Length', 'Content-Type', 'Authorization', 'Date', 'Expect', 'Host',
         'Location', 'Server', 'User-Agent', 'Cookie', 'Set-Cookie', 'Allow', 'Access-Control-Allow-Origin', 'X-Unknown']
 
